@@ -244,10 +244,16 @@ func (f *Formatter) formatNode(n *html.Node, buf *strings.Builder, depth int) {
 			return
 		}
 
-		// Pre blocks - preserve content whitespace and escape entities
-		if n.Data == "pre" {
+		// Pre blocks (and the other elements whose whitespace is content) - preserve
+		// content whitespace and escape entities
+		if n.Data == "pre" || n.Data == "textarea" || n.Data == "listing" {
 			buf.WriteString(indent)
 			buf.WriteString(f.renderOpenTag(n))
+			// The parser drops one newline right after the start tag of these elements:
+			// content that begins with a newline needs a second one to survive
+			if c := n.FirstChild; c != nil && c.Type == html.TextNode && strings.HasPrefix(c.Data, "\n") {
+				buf.WriteString("\n")
+			}
 			f.renderPreContent(n, buf)
 			buf.WriteString(f.renderCloseTag(n))
 			buf.WriteString("\n")
